@@ -309,7 +309,7 @@ class Interp(Analyzer):
         b = self.prog.bodies.get(path)
         if b is None or frame.depth >= self.max_depth + 2:
             return TOP
-        r = self.call_body(b, [], frame, st, {}, site='promoted')
+        r = self.call_body(b, [], frame, st, {}, site='promoted', keep_frame=True)
         return r if r is not None else TOP
 
     def as_int(self, v, st, ty=None):
@@ -1119,7 +1119,7 @@ class Interp(Analyzer):
                 else:
                     self.write_ptr(ptr, TOP, frame, st)
 
-    def call_body(self, body, args, frame, st, subst, site=None):
+    def call_body(self, body, args, frame, st, subst, site=None, keep_frame=False):
         """inline analysis of `body` with abstract arguments; mutates st; returns return value or None (diverges)"""
         nf = Frame(body, subst, (frame.depth + 1) if frame is not None else 0, frame, site)
         nf.id = '%s/%s' % (self._site, self.nid().rsplit(':', 1)[1])
@@ -1141,9 +1141,10 @@ class Interp(Analyzer):
         st.sets = out.sets
         st.cons = out.cons
         rv = st.env.get((nf.id, 0), TOP)
-        # drop the callee frame
-        for k in [k for k in st.env if k[0] == nf.id]:
-            del st.env[k]
+        # drop the callee frame (promoted constants live on: references to them are returned)
+        if not keep_frame:
+            for k in [k for k in st.env if k[0] == nf.id]:
+                del st.env[k]
         return rv
 
     # ------------------------------------------------------------------ fixpoint
